@@ -5,7 +5,8 @@
 (every other node kind is `other`, for which the real function answers `True`).  `Clean W e` is an independent
 specification: nowhere inside `e` — comprehension elements, conditions, slices, f-strings, keyword values
 included — is there a store (except to `_`), a control transfer / definition / import, or a call whose callee is
-not whitelisted.
+not whitelisted, and every callable handed to a builtin that calls it (`key=`, first argument of `map` / `filter`) is a
+lambda, a constant or whitelisted.
 -/
 namespace C16
 
@@ -28,6 +29,9 @@ inductive E
   | named (target value : E)                 -- `:=`, also Assign / AugAssign / AnnAssign with one target
   | lambda (defaults : List E) (body : E)
   | fstring (parts : List E)                 -- JoinedStr values / FormattedValue (value, format spec)
+  | keyarg (e : E)                           -- the value of a keyword argument named `key` (an element of `kwvals`)
+  | forStmt (target iter : E) (body orelse : List E)   -- `for` statement (the else clause counts: repaired defect)
+  | ifStmt (test : E) (body orelse : List E)           -- `if` statement
   | other                                    -- yield, return, raise, break, continue, assert, import, def, …
 deriving Repr, Inhabited
 
@@ -41,6 +45,9 @@ def namesIn : E → List String
   | .call f as ks => namesIn f ++ namesInL as ++ namesInL ks
   | .starred e => namesIn e | .ifexp t b o => namesIn t ++ namesIn b ++ namesIn o
   | .named t v => namesIn t ++ namesIn v | .lambda ds b => namesInL ds ++ namesIn b | .fstring ps => namesInL ps
+  | .keyarg e => namesIn e
+  | .forStmt t i b o => namesIn t ++ namesIn i ++ namesInL b ++ namesInL o
+  | .ifStmt t b o => namesIn t ++ namesInL b ++ namesInL o
   | .const => [] | .other => []
 def namesInL : List E → List String
   | [] => []
@@ -60,6 +67,9 @@ def attrsIn : E → List String
   | .call f as ks => attrsIn f ++ attrsInL as ++ attrsInL ks
   | .starred e => attrsIn e | .ifexp t b o => attrsIn t ++ attrsIn b ++ attrsIn o
   | .named t v => attrsIn t ++ attrsIn v | .lambda ds b => attrsInL ds ++ attrsIn b | .fstring ps => attrsInL ps
+  | .keyarg e => attrsIn e
+  | .forStmt t i b o => attrsIn t ++ attrsIn i ++ attrsInL b ++ attrsInL o
+  | .ifStmt t b o => attrsIn t ++ attrsInL b ++ attrsInL o
   | .name _ _ => [] | .const => [] | .other => []
 def attrsInL : List E → List String
   | [] => []
@@ -72,6 +82,26 @@ end
 def isName : E → Bool | .name _ _ => true | _ => false
 def isUnderscore : E → Bool | .name "_" _ => true | _ => false
 def isConst : E → Bool | .const => true | _ => false
+
+def isLambda : E → Bool | .lambda _ _ => true | _ => false
+def isMapFilter : E → Bool | .name "map" _ => true | .name "filter" _ => true | _ => false
+
+/-- the values of the keywords named `key` -/
+def keyVals : List E → List E
+  | [] => []
+  | .keyarg e :: rest => e :: keyVals rest
+  | _ :: rest => keyVals rest
+
+/-- what a call hands to a builtin that will call it: `key=` values, the first argument of `map` / `filter` -/
+def handed (f : E) (as ks : List E) : List E := keyVals ks ++ (if isMapFilter f then as.take 1 else [])
+
+/-- a handed callable that the real function accepts: a lambda (its body is examined with the arguments), a constant
+(`filter(None, …)`), or a whitelisted name -/
+def safeHanded (W : List String) : E → Bool
+  | .lambda _ _ => true
+  | .const => true
+  | .name id _ => W.contains id
+  | _ => false
 
 /-- a method of a literal (`"".join`) extends the whitelist by its own name for that call -/
 def extW (W : List String) : E → List String
@@ -93,6 +123,7 @@ def hse (W : List String) : E → Bool
   | .comp es gens => hseL W es || hseG W gens
   | .call f as ks =>
     let W' := extW W f
+    !(handed f as ks).all (safeHanded W') ||
     !(namesIn f).all (fun n => W'.contains n || n == "_") || hseL W' as || hseL W' ks ||
       !(attrsIn (.call f as ks)).all (fun a => W'.contains a)
   | .starred e => hse W e
@@ -100,6 +131,9 @@ def hse (W : List String) : E → Bool
   | .named t v => hse [] v || hse [] t                               -- whitelist dropped
   | .lambda ds b => hseL W ds || hse W b
   | .fstring ps => hseL [] ps                                        -- whitelist dropped
+  | .keyarg e => hse W e
+  | .forStmt t i b o => hse W t || hse W i || hseL W b || hseL W o
+  | .ifStmt t b o => hseL W b || hse W t || hseL W o
   | .other => true
 def hseL (W : List String) : List E → Bool
   | [] => false
@@ -128,12 +162,16 @@ def Clean (W : List String) : E → Prop
     (∀ n ∈ namesIn f, n ∈ W ∨ n = "_" ∨ (∃ a c, f = .attribute .const a c ∧ n = a)) ∧
     (∀ a ∈ attrsIn f, a ∈ W ∨ (∃ c, f = .attribute .const a c)) ∧
     CleanL (extW W f) as ∧
-    CleanL (extW W f) ks
+    CleanL (extW W f) ks ∧
+    (∀ h ∈ handed f as ks, safeHanded (extW W f) h = true)
   | .starred e => Clean W e
   | .ifexp t b o => Clean W t ∧ Clean W b ∧ Clean W o
   | .named t v => Clean W t ∧ Clean W v
   | .lambda ds b => CleanL W ds ∧ Clean W b
   | .fstring ps => CleanL W ps
+  | .keyarg e => Clean W e
+  | .forStmt t i b o => Clean W t ∧ Clean W i ∧ CleanL W b ∧ CleanL W o
+  | .ifStmt t b o => Clean W t ∧ CleanL W b ∧ CleanL W o
   | .other => False
 def CleanL (W : List String) : List E → Prop
   | [] => True
